@@ -203,7 +203,9 @@ impl Prop for C13 {
                                 .max_unused(rustic_core::LimitOption::Percentage(0))
                                 .max_repack(rustic_core::LimitOption::Unlimited)
                                 .keep_delete(jiff::Span::new())
-                                .instant_delete(i % 2 == 0);
+                                .instant_delete(i % 2 == 0)
+                                .fast_repack(i % 3 != 0)
+                                .repack_all(i % 4 == 1);
                             match sim.prune(&mode, 2, &popts) {
                                 Cmd::Ok(()) => Ok(("-".to_string(), ids)),
                                 r => Err((format!("prune-{}", r.class()), r.detail())),
